@@ -11,11 +11,20 @@ use std::sync::{Arc, Mutex};
 
 pub const NSHARDS: usize = 3;
 
+thread_local! {
+    /// size of the planted values A and B (C03 varies it)
+    pub static PLANTED_SIZE: std::cell::Cell<Size> = const { std::cell::Cell::new(Size::Five) };
+    /// make the operation's trigger event fire (C03 varies it)
+    pub static FORCE_MAINTENANCE: std::cell::Cell<bool> = const { std::cell::Cell::new(false) };
+    /// an fsx controller to install for the duration of the operation
+    pub static CONTROLLER: std::cell::RefCell<Option<Arc<dyn shim::Controller>>> = const { std::cell::RefCell::new(None) };
+}
+
 pub fn val_a() -> Val {
-    Val::new(0, Size::Five)
+    Val::new(0, PLANTED_SIZE.with(|s| s.get()))
 }
 pub fn val_b() -> Val {
-    Val::new(1, Size::Five)
+    Val::new(1, PLANTED_SIZE.with(|s| s.get()))
 }
 pub fn val_c() -> Val {
     Val::new(2, Size::One)
@@ -263,10 +272,18 @@ pub fn run_cell(cell: &Cell) -> CellRun {
     let before: Vec<Snapshot> = snap_dirs.iter().map(|d| world::snapshot(d)).collect();
     let op = cell.the_op();
     let old_umask = unsafe { libc::umask(cell.umask as libc::mode_t) };
+    let force = FORCE_MAINTENANCE.with(|f| f.get());
+    let ctl = CONTROLLER.with(|c| c.borrow().clone());
+    shim::set_controller(ctl);
     let (out, trace) = run::as_participant(0, 0, || {
-        run::trigger_never();
+        if force {
+            run::trigger_fire_next(u64::MAX);
+        } else {
+            run::trigger_never();
+        }
         ops::exec(&cache, &dirs, &op, &Default::default())
     });
+    shim::set_controller(None);
     unsafe { libc::umask(old_umask) };
     let residual_fds = shim::open_fds().len() + shim::open_dir_streams();
     let outcome = match out {
